@@ -94,3 +94,11 @@ func ProfileOpenAPI(avoid map[string]string) *Profile {
 	p.HostileNames = false
 	return p
 }
+
+// ProfileContract: what the published contract (OpenAPI / TypeScript types) must describe.
+func ProfileContract(avoid map[string]string) *Profile {
+	return &Profile{Name: "contract", MaxDataMessages: 3, MaxFields: 4, Nested: true, Maps: true, Oneofs: true,
+		Optionals: true, Repeateds: true, Enums: true, Timestamps: true, MessageFields: true,
+		MaxServices: 2, MaxMethods: 3, Transport: true, BasePaths: true, Headers: true, QueryOnBody: true,
+		Features: Features(AllFeatures...), AnnotatedNested: true, AnnotateAnyCard: true, MultiWordChild: true, ContractStrict: true, Avoid: avoid}
+}
